@@ -39,6 +39,8 @@ THEOREMS = [
     "C10_words",
     "C10_content_data",
     "C10_content_refuted",
+    "C10_noblank_data",
+    "C10_fits_unchanged",
 ]
 
 V80, V128, V5 = (6, 1, 0), (6, 2, 0), (5, 1, 60)
@@ -163,6 +165,9 @@ def apply_edits(obj, edits):
             obj.number = e[1]
         elif k == "mass_density":
             obj.mass_density = e[1]
+        elif k == "material":
+            obj.material = mp.data_from("m%d 1001.80c 1.0" % e[1])
+            obj.mass_density = e[2]
         elif k == "atom_density":
             obj.atom_density = e[1]
         elif k == "volume":
@@ -529,11 +534,16 @@ def gen_cell_case(rng, i):
     v = VERSIONS[i % 3]
     W = limit_of(v)
     target = W - rng.randint(0, 14)
-    text = f"{rng.choice([1, 5, 10, 99])} " + rng.choice(["0", "1 -2.5", "2 0.05"]) + " "
+    text = f"{rng.choice([1, 5, 10, 99])} 0 "
     s = 1
-    while len(text) < target - 12:
-        text += rng.choice(["-", "", "+", ""]) + str(s) + rng.choice([" ", " ", " : ", "  "])
+    while True:
+        text += rng.choice(["-", "", "+", ""]) + str(s)
         s += rng.choice([1, 3, 11, 101])
+        sep = rng.choice([" ", " ", " : ", "  "])
+        if len(text) + len(sep) >= target - 12:
+            break
+        text += sep
+    text += " "
     lines = [text.rstrip() if rng.random() < 0.5 else text]
     r = rng.random()
     if r < 0.35:
@@ -541,7 +551,7 @@ def gen_cell_case(rng, i):
     elif r < 0.5:
         lines.append(rng.choice(["c ", "C ", "  c "]) + gen_comment(rng, rng.randint(1, 20)))
     nparam = rng.randint(0, 3)
-    params = rng.sample(["imp:n=1", "vol=2.5", "u=3", "tmp=2.5e-8", "imp:n=0 imp:p=1"], nparam)
+    params = rng.sample([rng.choice(["imp:n=1", "imp:n=0 imp:p=1"]), "vol=2.5", "u=3", "tmp=2.5e-8"], nparam)
     for p in params:
         if rng.random() < 0.5 and "$" not in lines[-1] and not lines[-1].lower().lstrip().startswith("c "):
             lines[-1] = lines[-1].rstrip() + " " + p
@@ -552,9 +562,8 @@ def gen_cell_case(rng, i):
     edits = []
     if rng.random() < 0.7:
         edits.append(["number", rng.choice([12345678, 99999999, 1234, 7])])
-    if "-2.5" in text or "0.05" in text:
-        if rng.random() < 0.5:
-            edits.append(["mass_density", rng.choice([1.23456789, 0.000123456, 19.1])])
+    if rng.random() < 0.35:
+        edits.append(["material", rng.choice([1, 12345678]), rng.choice([1.23456789, 0.000123456, 19.1])])
     if rng.random() < 0.4:
         edits.append(["volume", rng.choice([5.0, 1.23456789e7, 0.001])])
     if rng.random() < 0.3 and "imp:n" in "\n".join(lines):
